@@ -2399,10 +2399,8 @@ impl Melda {
                                 let r = Revision::new(1, digest.to_string(), None);
                                 cs.push(Change(uuid.to_string(), r, None));
                             } else if record.len() == 3 {
-                                // Update record
-                                if anchors.is_none() {
-                                    bail!("update_record_found_in_origin_delta")
-                                }
+                                // Update record (in an origin delta only allowed on top
+                                // of a revision introduced by the same delta)
                                 let uuid = record[0]
                                     .as_str()
                                     .ok_or_else(|| anyhow!("expecting_uuid_string"))?;
@@ -2421,6 +2419,15 @@ impl Melda {
                                 cs.push(Change(uuid.to_string(), r, Some(prev)));
                             } else {
                                 bail!("invalid_changes_record")
+                            }
+                        }
+                    }
+                    if anchors.is_none() {
+                        for Change(uuid, _, prev) in &cs {
+                            if let Some(prev) = prev {
+                                if !cs.iter().any(|Change(u, r, _)| u == uuid && r == prev) {
+                                    bail!("update_record_found_in_origin_delta")
+                                }
                             }
                         }
                     }
